@@ -257,13 +257,16 @@ def extract_qhash(repo):
     res["m128Tail"] = [(l, j, s) for l, _, j, s in tt]
     fms = re.findall(r"\b(h[12])\s*\^=\s*\1\s*>>\s*(\d+)\s*;\s*\1\s*\*=\s*(\w+)\s*;\s*\1\s*\^=\s*\1\s*>>\s*(\d+)\s*;"
                      r"\s*\1\s*\*=\s*(\w+)\s*;\s*\1\s*\^=\s*\1\s*>>\s*(\d+)\s*;", b)
-    if [f[0] for f in fms] != ["h1", "h2"]:
+    # the two mixes touch one variable each, so their relative order is immaterial
+    if sorted(f[0] for f in fms) != ["h1", "h2"]:
         die("murmur128: finaliser not found")
+    fms.sort(key=lambda f: f[0])
     res["m128Fmix1"] = [int(fms[0][1]), cint(fms[0][2]), int(fms[0][3]), cint(fms[0][4]), int(fms[0][5])]
     res["m128Fmix2"] = [int(fms[1][1]), cint(fms[1][2]), int(fms[1][3]), cint(fms[1][4]), int(fms[1][5])]
     # statement frame of the function ends (so that a reordering is noticed): checked loosely
     fin = norm(b)
-    res["m128FrameOk"] = ("h1^=nbytes;h2^=nbytes;h1+=h2;h2+=h1;" in fin and fin.count("h1+=h2;h2+=h1;") == 2
+    res["m128FrameOk"] = (("h1^=nbytes;h2^=nbytes;h1+=h2;h2+=h1;" in fin or "h2^=nbytes;h1^=nbytes;h1+=h2;h2+=h1;" in fin)
+                          and fin.count("h1+=h2;h2+=h1;") == 2
                           and "memcpy(retbuf,&h1,sizeof(h1));memcpy((uint8_t*)retbuf+sizeof(h1),&h2,sizeof(h2));" in fin)
     return res
 
